@@ -219,8 +219,8 @@ const prelude = `(declare-sort Str 0)
 (declare-datatypes ((Iface 0)) (((mk_iface (i_tag Int) (i_val Int)))))
 (declare-fun slen (Str) Int)
 (declare-fun sat (Str Int) Int)
-(declare-fun substr (Str Int Int) Str)
-(declare-fun concat (Str Str) Str)
+(declare-fun ssub (Str Int Int) Str)
+(declare-fun sconcat (Str Str) Str)
 (declare-fun str_lt (Str Str) Bool)
 (declare-fun lower (Str) Str)
 (declare-fun box_str (Str) Int)
@@ -262,6 +262,9 @@ const prelude = `(declare-sort Str 0)
 (declare-const empty_str Str)
 (assert (= (slen empty_str) 0))
 (assert (= (rkind 0) 0))
+(assert (forall ((b Str) (l1 Int) (h1 Int) (l2 Int) (h2 Int)) (! (=> (and (<= 0 l1) (<= l1 h1) (<= 0 l2) (<= l2 h2) (<= h2 (- h1 l1))) (= (ssub (ssub b l1 h1) l2 h2) (ssub b (+ l1 l2) (+ l1 h2)))) :pattern ((ssub (ssub b l1 h1) l2 h2)))))
+(assert (forall ((b Str) (l Int) (h Int)) (! (=> (and (<= 0 l) (<= l h) (<= h (slen b))) (= (slen (ssub b l h)) (- h l))) :pattern ((ssub b l h)))))
+(assert (forall ((b Str)) (! (= (ssub b 0 (slen b)) b) :pattern ((ssub b 0 (slen b))))))
 (define-fun nil_slice () Slice (mk_slice 0 0 0 0))
 (define-fun nil_iface () Iface (mk_iface 0 0))
 (define-fun go_div ((x Int) (y Int)) Int (ite (>= x 0) (ite (> y 0) (div x y) (- (div x (- y)))) (ite (> y 0) (- (div (- x) y)) (div (- x) (- y)))))
